@@ -13,7 +13,10 @@ import FpgoVerif.Props.C19
 #print axioms FpgoVerif.C19.C19_desc
 #print axioms FpgoVerif.C19.C19_desc_strictWeak
 #print axioms FpgoVerif.C19.C19_desc_single
+#print axioms FpgoVerif.C19.C19_pinned_refuted
 #print axioms FpgoVerif.C19.C19_sortedList
 #print axioms FpgoVerif.C19.C19_sortedList_heap
 #print axioms FpgoVerif.C19.C19_alias_variant_modifies_input
 #print axioms FpgoVerif.C19.C19_sortInPlace
+#print axioms FpgoVerif.C19.C19_oracle_accepts_exactly_model
+#print axioms FpgoVerif.C19.C19_oracle_desc
